@@ -2396,7 +2396,7 @@ class Interp:
         if isinstance(r, tuple) and r[0] == 'assign':
             rhs = r[2][-1]
             if isinstance(rhs, ast.Call) and _text(rhs) == 'object()':
-                return Sym('sentinel@%d' % rhs.lineno, truthy=True, attrs={'distinct': True})
+                return Sym('sentinel@%d_%d' % (rhs.lineno, rhs.col_offset), truthy=True, attrs={'distinct': True})   # (one marker per object() expression)
             if any(isinstance(x, ast.Call) and _text(x.func) == 're.compile' for x in ast.walk(rhs)):
                 v = self._const_obj(rhs, r[1])
                 if v is not TOP:
